@@ -3506,3 +3506,66 @@ impl InconsistentTopicStatus {
         status
     }
 }
+
+// Verification hook (inert unless built by Kani with `--cfg s2e_systems_dust_dds_verif`):
+// crate-visible wrappers for module-private items that the out-of-tree proof harnesses call.
+#[cfg(all(kani, s2e_systems_dust_dds_verif))]
+pub(crate) mod s2e_systems_dust_dds_verif_hooks {
+    use super::*;
+
+    pub(crate) fn reader_incompatible_qos(
+        writer_qos: &DataWriterQos,
+        discovered_reader_data: &SubscriptionBuiltinTopicData,
+        publisher_qos: &PublisherQos,
+    ) -> Vec<QosPolicyId> {
+        get_discovered_reader_incompatible_qos_policy_list(
+            writer_qos,
+            discovered_reader_data,
+            publisher_qos,
+        )
+    }
+
+    pub(crate) fn writer_incompatible_qos(
+        data_reader: &DataReaderEntity<impl RtpsReader>,
+        publication_builtin_topic_data: &PublicationBuiltinTopicData,
+        subscriber_qos: &SubscriberQos,
+    ) -> Vec<QosPolicyId> {
+        get_discovered_writer_incompatible_qos_policy_list(
+            data_reader,
+            publication_builtin_topic_data,
+            subscriber_qos,
+        )
+    }
+
+    pub(crate) fn fnmatch_to_regex_hook(pattern: &str) -> String {
+        fnmatch_to_regex(pattern)
+    }
+
+    impl DcpsDomainParticipant {
+        pub(crate) fn verif_add_discovered_participant(
+            &mut self,
+            discovered_participant_data: &SpdpDiscoveredParticipantData,
+            runtime: &impl DdsRuntime,
+        ) {
+            self.add_discovered_participant(discovered_participant_data, runtime)
+        }
+
+        pub(crate) fn verif_remove_discovered_reader(
+            &mut self,
+            subscription_handle: InstanceHandle,
+            publisher_handle: InstanceHandle,
+            data_writer_handle: InstanceHandle,
+        ) {
+            self.remove_discovered_reader(subscription_handle, publisher_handle, data_writer_handle)
+        }
+
+        pub(crate) fn verif_remove_discovered_writer(
+            &mut self,
+            publication_handle: InstanceHandle,
+            subscriber_handle: InstanceHandle,
+            data_reader_handle: InstanceHandle,
+        ) {
+            self.remove_discovered_writer(publication_handle, subscriber_handle, data_reader_handle)
+        }
+    }
+}
